@@ -364,11 +364,13 @@ Proof.
   inversion Hu; subst. apply IH; [ assumption | ]. apply dnf_set_key; assumption.
 Qed.
 
+(* the _id the replacement branch keeps: that of the document being replaced (a null one counts
+   as absent); the filter is not consulted any more (repaired in the library) *)
 Definition spec_id (spec doc : value) : option value :=
-  match spec with
-  | VDoc sfs => match assoc "_id" sfs with
-                | Some i => Some i
-                | None => match doc with VDoc dfs => assoc "_id" dfs | _ => None end
+  match doc with
+  | VDoc dfs => match assoc "_id" dfs with
+                | Some i => if is_null i then None else Some i
+                | None => None
                 end
   | _ => None
   end.
@@ -381,13 +383,26 @@ Qed.
 Lemma id_base_dn spec doc :
   DN spec -> DN doc ->
   DNF (match spec_id spec doc with
-       | Some i => if is_null i then [] else [("_id", i)]
+       | Some i => [("_id", i)]
        | None => []
        end).
 Proof.
   intros Hs Hd. destruct (spec_id spec doc) as [i|] eqn:E; [ | constructor ].
-  destruct (is_null i); [ constructor | ].
   constructor; [ eapply spec_id_dn; [ exact Hs | exact Hd | exact E ] | constructor ].
+Qed.
+
+(* the empty update document keeps only the (non-null) _id of the document *)
+Lemma id_only_dn doc :
+  DN doc ->
+  DNF (match (match doc with VDoc dfs => assoc "_id" dfs | _ => None end) with
+       | Some i => if is_null i then [] else [("_id", i)]
+       | None => []
+       end).
+Proof.
+  intros Hd. destruct doc as [ | | | | | | | dfs | ]; try constructor.
+  destruct (assoc "_id" dfs) as [i|] eqn:E; [ | constructor ].
+  destruct (is_null i); [ constructor | ].
+  constructor; [ dn_solve | constructor ].
 Qed.
 
 Lemma apply_update_key_dn spec update wi now first k v doc d stop :
@@ -467,6 +482,6 @@ Proof.
   intros Hs Hu Hd H. unfold apply_update in H.
   destruct update as [ | | | | | | | ufs | ]; try discriminate.
   destruct ufs as [ | kv ufs ].
-  - fold (spec_id spec doc) in H. inv_pair H. apply dn_doc. apply id_base_dn; assumption.
+  - inv_pair H. apply dn_doc. apply id_only_dn; assumption.
   - eapply apply_update_keys_dn; [ exact Hs | | | exact Hd | exact H ]; dn_solve.
 Qed.
